@@ -61,6 +61,9 @@ func runKeyPhase(w *bufio.Writer, seed uint64, n int, _ []string) {
 	for i := 0; i < n; i++ {
 		kpCase(w, r.Fork(), dist, i)
 	}
+	for i := 0; i < n/3; i++ {
+		kpSysCase(w, r.Fork(), dist)
+	}
 	ppPrintDist(w, dist)
 }
 
